@@ -179,14 +179,14 @@ int Session::start(Connection *connection, bool wait, const unsigned send_seqnum
 	_connection = connection; // takes owership
 	if (!_connection->connect()) // if already connected returns true
 		return -1;
-	if (_connection->get_role() == Connection::cn_acceptor)
-		atomic_init(States::st_wait_for_logon); // important for server that this is done before connect
+	// important that this is done before the connection (reader thread) starts: a session object that is
+	// reused for a reconnect is still in the terminated state and the new reader would exit at once
+	atomic_init(_connection->get_role() == Connection::cn_acceptor ? States::st_wait_for_logon : States::st_not_logged_in);
 	_connection->start();
 	slout_info << "Session connected";
 
 	if (_connection->get_role() == Connection::cn_initiator)
 	{
-		atomic_init(States::st_not_logged_in);
 		if (_loginParameters._reset_sequence_numbers)
 			_next_send_seq = _next_receive_seq = 1;
 		else
